@@ -226,20 +226,36 @@ impl<Fd: AsFd> FdExt for Fd {
 
     fn as_unsafe_path_unchecked(&self) -> Result<PathBuf, Error> {
         let fd = self.as_fd();
-        // "/proc/thread-self/fd/$n"
-        let fd_path = PathBuf::from("/proc")
-            .join(ProcfsBase::ProcThreadSelf.into_path(None))
-            .join(proc_subpath(fd)?);
+        let subpath = proc_subpath(fd)?;
 
-        // Because this code is used within syscalls, we can't even check the
-        // filesystem type of /proc (unless we were to copy the logic here).
-        fs::read_link(&fd_path).map_err(|err| {
-            ErrorImpl::OsError {
-                operation: format!("readlink fd magic-link {fd_path:?}").into(),
-                source: err,
+        // This is called whenever one of our syscall wrappers builds an error
+        // (see syscalls::FrozenFd), so it must not go through those wrappers
+        // itself (nor through ProcfsBase::into_path, which does): if /proc is
+        // not usable, each failed probe would build another error, whose
+        // FrozenFd would probe /proc again -- until the stack overflows. Try
+        // the candidates for "/proc/thread-self/fd/$n" directly instead.
+        let candidates = [
+            PathBuf::from("thread-self"),
+            format!("self/task/{}", syscalls::gettid()).into(),
+            PathBuf::from("self"),
+        ];
+        let mut last_err = None;
+        for base in candidates {
+            // Because this code is used within syscalls, we can't even check
+            // the filesystem type of /proc (unless we were to copy the logic
+            // here).
+            let fd_path = PathBuf::from("/proc").join(base).join(&subpath);
+            match fs::read_link(&fd_path) {
+                Ok(path) => return Ok(path),
+                Err(err) => last_err = Some((fd_path, err)),
             }
-            .into()
-        })
+        }
+        let (fd_path, err) = last_err.expect("candidate list is not empty");
+        Err(ErrorImpl::OsError {
+            operation: format!("readlink fd magic-link {fd_path:?}").into(),
+            source: err,
+        }
+        .into())
     }
 
     fn is_magiclink_filesystem(&self) -> Result<bool, Error> {
